@@ -99,6 +99,18 @@ func runC17(c *Ctx) {
 	tw := PlanTunnels(c, TunOpts{N: 1 + c.T.Weighted(2, 1), Transports: []string{"ws", "legacy"}})
 	tw.Cfg.SmartCardAuth = c.T.Bool(1, 2)
 	tw.NTLM = c.T.Bool(1, 2) // all four server settings of {cookie auth, smart card}
+	// half of the runs sweep the product {4 server settings} x {65536 client values} by seed:
+	// 262144 consecutive seeds visit every cell once (the thorough tier several times over)
+	sweep := c.T.Bool(1, 2)
+	cell := int(c.Res.Seed & 0x3ffff)
+	if _, fixed := c.Arg["caps"]; fixed {
+		sweep = false
+	}
+	if sweep {
+		tw.Cfg.SmartCardAuth = cell>>16&1 == 1
+		tw.NTLM = cell>>17&1 == 1
+		c.S.Count("probe.sweep_cell")
+	}
 	if !BootTun(c, tw, false) {
 		return
 	}
@@ -118,6 +130,9 @@ func runC17(c *Ctx) {
 			var x int
 			fmt.Sscanf(v, "%d", &x)
 			caps = uint16(x)
+		}
+		if sweep && p == tw.Plans[0] {
+			caps = uint16(cell & 0xffff)
 		}
 		major, minor := byte(c.T.Choose(256)), byte(c.T.Choose(256))
 		capsOf[p.Name], verOf[p.Name] = caps, [2]byte{major, minor}
